@@ -127,7 +127,7 @@ func c17() []*Ob {
 						return false
 					}
 					ia, ok := st.Addr.(*ssa.IndexAddr)
-					if !ok || ia.X.Type().String() != "[]uint32" {
+					if !ok || TypeStr(ia.X.Type()) != "[]uint32" {
 						return false
 					}
 					_, isMk := ia.X.(*ssa.MakeSlice)
@@ -145,7 +145,7 @@ func c17() []*Ob {
 							continue
 						}
 						ia, ok := st.Addr.(*ssa.IndexAddr)
-						if !ok || ia.X.Type().String() != "[]uint32" {
+						if !ok || TypeStr(ia.X.Type()) != "[]uint32" {
 							continue
 						}
 						if _, isAlloc := ia.X.(*ssa.Call); !isAlloc {
@@ -172,7 +172,7 @@ func c17() []*Ob {
 								walk(x.X, d+1)
 							case *ssa.UnOp:
 								if e, ok := x.X.(*ssa.IndexAddr); ok && x.Op == token.MUL {
-									if (ValueIsField(e.X, "frac.metaDataCollector", "tokensInDocs") || e.X.Type().String() == "[]uint32") && SameValue(e.Index, ia.Index) && e.X != ia.X {
+									if (ValueIsField(e.X, "frac.metaDataCollector", "tokensInDocs") || TypeStr(e.X.Type()) == "[]uint32") && SameValue(e.Index, ia.Index) && e.X != ia.X {
 										includesOwn = true
 									}
 								}
